@@ -274,10 +274,8 @@ func c18Run(ctx *run.Ctx, id run.CaseID) {
 		}
 	}
 	ctx.Count("overlapping_call_pairs", overlaps)
-	ctx.Count("distinct_overlapping_api_pairs_max_per_rep", 0)
-	if int64(len(pairs)) > 0 {
-		ctx.Count(fmt.Sprintf("rep_%d_distinct_api_pairs", id.Index), int64(len(pairs)))
-	}
+	ctx.Count("distinct_overlapping_api_pairs_summed_over_reps", int64(len(pairs)))
+	ctx.Count("repetitions", 1)
 	if yield > 0 {
 		ctx.Count("repetitions_with_yield_hook", 1)
 	}
